@@ -127,7 +127,7 @@ STANDALONE_REG = '''//@   requires standaloneTestsRegistry != nil && standaloneT
 //@   requires standaloneTestsRegistry.Mutex != testEvents.Mutex
 //@   let gp = snapPathSpec(c.snapsDir, c.filename, {ext}, tname(t), true, isTrimBathBuild, baseCaller(3))
 //@   let k = old(standaloneTestsRegistry.running[gp]) + 1
-//@   let sp = sprintf_d(gp, k)
+//@   let sp = ordPath(gp, k)
 //@   requires fsguard[sp] == nil
 //@   let hit = old(fsx[sp])
 //@   let stored = old(fsc[sp])
